@@ -179,6 +179,7 @@ func runC12(env *Env, s Scenario) {
 	}
 	out := env.K.Run(done, sc.Deadline(), Micro(sc.ReadDelayUS)*20+time.Millisecond)
 	env.Finish(out)
+	c11Writes, c11Emitted = sr.Tr.NWrites(), sr.Tr.Emitted()
 	env.Context = func() string {
 		var sb strings.Builder
 		sb.WriteString(sr.Summary())
